@@ -109,14 +109,14 @@ Theorem run_refines_spec s : setup_ok s = true ->
   srel pv pv Z pv_eq (m_run s) (sp_run s).
 Proof.
   intro Hok. pose proof (setup_ok_facts s Hok) as F. unfold m_run, sp_run.
-  apply cold_run_rel with (ok := fun n => 0 <= n < s_nsteps s).
+  apply cold_run_rel with (ok := fun n => 0 <= n < s_nsteps s) (okr := fun n => 0 <= n < s_nsteps s).
   - intros n Hn. unfold m_release, sp_release. rewrite (m_rows_spec s n F (proj1 Hn)). apply Forall2_refl_rows.
   - intros n v w Hn R. unfold m_force, sp_force. apply with_temp_eq; [exact R|apply m_temp_spec; assumption].
   - intros n v w _ (_ & B & _). exact B.
   - intros n v w c Hn R. unfold m_track, sp_track. apply move_eq; [apply m_u_spec; assumption|exact R].
   - intros n v w _ R. apply ibm_eq. exact R.
   - reflexivity.
-  - intros n Hn. exact Hn.
+  - intros n Hn. split; exact Hn.
 Qed.
 
 (** * Two well-formed set-ups with the same physics whose SPECIFICATION environments agree run alike *)
@@ -141,7 +141,7 @@ Proof.
   intros Hok Hok' P HN Hu Ht Hr.
   pose proof (setup_ok_facts s Hok) as F. pose proof (setup_ok_facts s' Hok') as F'.
   unfold m_run. rewrite HN.
-  apply cold_run_rel with (ok := fun n => 0 <= n < s_nsteps s).
+  apply cold_run_rel with (ok := fun n => 0 <= n < s_nsteps s) (okr := fun n => 0 <= n < s_nsteps s).
   - intros n Hn. unfold m_release. rewrite (m_rows_spec s n F (proj1 Hn)), (m_rows_spec s' n F' (proj1 Hn)).
     fold (sp_release s n). fold (sp_release s' n). rewrite (Hr n Hn). apply Forall2_refl_rows.
   - intros n v w Hn R. unfold m_force. apply with_temp_eq; [exact R|].
@@ -151,5 +151,5 @@ Proof.
     rewrite (m_u_spec s n F Hn), (Hu n Hn). symmetry. apply m_u_spec; [exact F'|rewrite HN; exact Hn].
   - intros n v w _ R. rewrite (ibm_phys s s' _ _ P). apply ibm_eq. exact R.
   - intros n _. symmetry. apply due_phys. exact P.
-  - intros n Hn. exact Hn.
+  - intros n Hn. split; exact Hn.
 Qed.
